@@ -20,10 +20,11 @@ def check(tier, seed, t0):
     thorough = tier == "thorough"
     vlib.build_harness()
     v = vlib.Verdict(PROP)
-    runs = [("d2", ["a", "b", "c"], 2, "full"), ("fn4", ["a", "b"], 4, "fn")]
+    runs = [("d2", ["a", "b", "c"], 2, "full"), ("fn4", ["a", "b"], 4, "fn"), ("data2", ["a", "b", "c"], 2, "data")]
     if thorough:
         runs.append(("d3", ["a", "b"], 3, "full"))
         runs.append(("fn5", ["a", "b"], 5, "fn"))
+        runs.append(("data3", ["a", "b"], 3, "data"))
     cases, states, trans, wall = [], 0, 0, 0.0
     for tag, vs, depth, alpha in runs:
         r = vlib.run_tlc("c03_mc_" + tag, "MC_C03", cfg(vs, depth, alpha), workers=8, timeout=3000, xmx="12g")
